@@ -573,9 +573,9 @@ def main():
     # ---------------- bounded stand-ins for code no contract can reach (SQL of the client DBM)
     import replay as replay_mod
     bounded_notes = []
-    for bname, (bsrc, _m, _t, _p, _f, bprops, bbound) in replay_mod.BOUNDED.items():
-        stale = [m for m in undecided if "stale-transcription" in m and bsrc in m]
-        if prop not in bprops or not any(bname == "plugin_dbm" and u["name"] in ("wt_client", "retrier", "plugin_main") for u in units):
+    for bname, (bsrc, _m, _t, _p, _f, bprops, bbound, bunits) in replay_mod.BOUNDED.items():
+        stale = [m for m in undecided if "stale-transcription" in m and (bsrc + ":") in m]
+        if prop not in bprops or not any(u["name"] in bunits for u in units):
             continue
         if not stale and tier != "thorough":
             continue
@@ -589,7 +589,7 @@ def main():
             # the proofs of this property assume: reported as a violation found by the BOUNDED stand-in (not by a proof)
             violations.append(({"name": bname + "_bounded"}, {"id": "%s::bounded-store-contract" % bname, "fn": bsrc, "label": None, "where": bsrc, "src": None,
                                "msg": "BOUNDED check: " + b["outcome"], "rendered": b["input"], "bounded_input": b["input"], "bounded_cmd": b["cmd"]}))
-            undecided = [m for m in undecided if not ("stale-transcription" in m and bsrc in m)]
+            undecided = [m for m in undecided if not ("stale-transcription" in m and (bsrc + ":") in m)]
         elif b["kind"] is not None and not stale:
             undecided.append("bounded validation: the stub contracts of %s do not describe the unchanged real code: %s" % (bname, b["input"]))
         elif stale:
